@@ -231,10 +231,54 @@ func enumC39C93(c *core.Ctx, fams []string, wordLen int) {
 	}
 }
 
+// longSymbols: every length whose symbol ends near a multiple of 4096 modules (where a bit buffer
+// that grows in blocks reallocates) for the linear families without a length limit.
+func longSymbols(c *core.Ctx, fams ...string) {
+	for _, fam := range fams {
+		switch fam {
+		case "c39", "c93":
+			per := map[string]int{"c39": 13, "c93": 9}[fam]
+			for _, k := range []int{1, 2} {
+				mid := 4096 * k / per
+				for n := mid - 12; n <= mid+6; n++ {
+					for ck := 0; ck <= 1; ck++ {
+						Run(c, &core.Case{Fam: fam, S: []byte(Filler("0123456789ABCDEFGHIJKLMNOPQRSTUVWXYZ-. $/+%", n)), P: []int{ck, 0}})
+						Run(c, &core.Case{Fam: fam, S: []byte(Filler("A1-", n)), P: []int{ck, 0}})
+					}
+					Run(c, &core.Case{Fam: fam, S: []byte(Filler("aB~9", n/2)), P: []int{1, 1}})
+					Run(c, &core.Case{Fam: fam, S: []byte(Filler("aB~9", n*2/3)), P: []int{0, 1}})
+				}
+			}
+		case "codabar":
+			for _, k := range []int{1, 2} {
+				for n := 4096*k/13 - 12; n <= 4096*k/10+6; n++ {
+					if n > 4096*k/13+6 && n < 4096*k/11-12 && n%5 != 0 {
+						continue
+					}
+					Run(c, &core.Case{Fam: fam, S: []byte("A" + Filler("0123456789-$:/.+", n) + "B")})
+					Run(c, &core.Case{Fam: fam, S: []byte("C" + Filler("0:1/", n) + "D")})
+				}
+			}
+		case "tof":
+			for _, k := range []int{1, 2} {
+				for n := 4096*k/14 - 6; n <= 4096*k/14+6; n++ {
+					Run(c, &core.Case{Fam: fam, S: []byte(Filler("0123456789", n)), P: []int{0}})
+				}
+				for n := 4096*k/9 - 8; n <= 4096*k/9+8; n++ {
+					Run(c, &core.Case{Fam: fam, S: []byte(Filler("0123456789", n)), P: []int{1}})
+					Run(c, &core.Case{Fam: fam, S: []byte(Filler("9", n)), P: []int{1}})
+				}
+			}
+		}
+	}
+}
+
 func c07Body(c *core.Ctx) {
 	defer seqPairs(c, "c39", "c93")
 	wl := pick(c, 2, 3)
 	enumC39C93(c, []string{"c39", "c93"}, wl)
+	longSymbols(c, "c39", "c93")
+	c.R.Bound("long_symbols", "every length whose symbol ends within a character or two of 4096 and 8192 modules, two fillers x check variants and full-ASCII fillers")
 	c.R.Bound("words", fmt.Sprintf("all words <= %d (basic alphabet: <= 3) over the full alphabet (basic: 43 characters + '*' + FNC1-4 + 'a','é',0xFF; full ASCII: 0..127 + 'é',0x80) x includeChecksum x fullASCII x {Code 39, Code 93}", wl))
 	c.R.Bound("weight_period", "lengths 14,15,16,19,20,21,22,40,41,42 with one foreign character at every position (all characters) and two at every position pair")
 	for _, s := range []string{"Code 39", "Code 93"} {
@@ -287,6 +331,8 @@ func c08Body(c *core.Ctx) {
 	defer seqPairs(c, "codabar", "tof")
 	cl, tl := pick(c, 5, 6), pick(c, 6, 7)
 	enumC08(c, cl, tl)
+	longSymbols(c, "codabar", "tof")
+	c.R.Bound("long_symbols", "Codabar and 2 of 5 lengths whose symbol ends near 4096 and 8192 modules")
 	c.R.Bound("codabar", fmt.Sprintf("all words <= %d over its 20 characters + 'E'", cl))
 	c.R.Bound("twooffive", fmt.Sprintf("all words <= %d over 10 digits + 'a', both variants and AddCheckSum; all words <= 4 over {1,8,é,€,😀,0xFF}; fillers of length 8..64", tl))
 	for _, s := range []string{"Codabar", "2 of 5", "2 of 5 (interleaved)", "AddCheckSum"} {
